@@ -29,6 +29,10 @@ def _stores(tier):
     return out
 
 
+ALLOC = {'name': 'proid/x', 'partition': 'p0', 'rank': 100, 'memory': '0G',
+         'cpu': '0%', 'disk': '0G',
+         'assignments': [{'pattern': 'proid.web*', 'priority': 50}]}
+
 EVENTS = [['none'], ['presence_down', 0], ['schedule', 2], ['delete', 0],
           ['server_edit', 0, 'shrink'], ['server_state', 0, 'frozen',
                                          [g2.APPS[0]]],
@@ -72,6 +76,16 @@ def subharnesses(tier):
         spec = dict(store, nservers=2, events=[], crash_in='init',
                     regime='sym')
         subs.append(('%s-sym-crash_in_init' % sname, spec))
+    # two partitions; the allocation of the instances moves from p0 to p1
+    for recs in ([[0], [0]], [[0], []]):
+        st = {'apps': [{'recorded': r, 'memory': 3} for r in recs],
+              'servers': [{'memory': 8, 'partition': 'p0'},
+                          {'memory': 8, 'partition': 'p1'}],
+              'allocations': [dict(ALLOC)], 'regime_dems': [3, 3, 3, 3]}
+        ev = ['allocations', [dict(ALLOC, partition='p1')]]
+        spec = dict(st, nservers=2, events=[ev], crash_in='cycle')
+        subs.append(('alloc-moves-partition-%s-crash_in_cycle' % ''.join(
+            str(len(r)) for r in recs), spec))
     for sname, store in _stores(tier):
         for rg in REGIMES:
             st = _with_regime(store, rg)
